@@ -75,10 +75,12 @@ fn get_set_cached<T: Clone>(
     let mut lock = cache
         .lock()
         .unwrap_or_else(|poisoned| poisoned.into_inner());
-    #[cfg(graphql_client_verif)]
-    verif_turn.acquired();
+    // (the event is logged before the next thread of a schedule is let through: the two caches have
+    // separate locks, so the log order would otherwise not be the acquisition order)
     #[cfg(graphql_client_verif)]
     let _verif_held = verif::acquired(verif_cache, key);
+    #[cfg(graphql_client_verif)]
+    verif_turn.acquired();
     #[cfg(graphql_client_verif)]
     let value_func = || {
         verif::emit("LoadBegin", verif_cache, key);
